@@ -84,9 +84,56 @@ def history_trace():
     return 'History', len(lines), bad, got
 
 
+def parse_trace():
+    """Trace_Parse: text -> IR by the spec; corrupt the TEXT (one combinator / simple selector changed) and keep the recorded IR"""
+    sv, bs4 = common.import_repo()
+    from soupsieve import css_types as ct
+    rng = random.Random(3)
+    evs, bad = [], set()
+    for k in range(60):
+        ast = gen.rand_list(rng, 2)
+        css = selmod.selector_list(ast)
+        ir = irproj.proj_list(ct, sv.compile(css).selectors)
+        text = css
+        if k % 4 == 0:
+            t2 = css.replace('>', '~', 1) if '>' in css else css.replace('.', '#', 1) if '.' in css else css.replace('+', '>', 1) if '+' in css else None
+            if t2 is not None and t2 != css:
+                try:
+                    if sv.compile(t2).selectors != sv.compile(css).selectors:
+                        text = t2
+                        bad.add('p%d' % k)
+                except Exception:
+                    pass
+        evs.append({'id': 'p%d' % k, 'text': common.cps(text), 'ir': ir, 'pool': [common.cps(v) for v in irproj.VALUE_POOL], 'css': css, 'res': 'IR', 'canonical': ''})
+    got = _reject_ids('Trace_Parse', [json.dumps(e) for e in evs])
+    return 'Trace_Parse', len(evs), bad, got
+
+
+def pipe_trace():
+    """Trace_Pipe: text + document -> elements by the I-stratum pipeline; corrupt the recorded result"""
+    rng = random.Random(4)
+    gen.EXCLUDE = set()
+    jobs = [('d%d' % k, gen.rand_doc(rng, nmax=10), [gen.rand_list(rng, 2) for _ in range(4)], [0], None) for k in range(12)]
+    evs = [json.loads(l) for l in trace.record_select(jobs)]
+    bad = set()
+    for n, e in enumerate(evs):
+        if n % 5 == 0:
+            els = [i + 1 for i, k in enumerate(e['doc']['kind']) if k == 'e']
+            cand = [i for i in els if i not in e['res']]
+            if cand:
+                e['res'] = sorted(e['res'] + [cand[0]])
+            elif e['res']:
+                e['res'] = e['res'][1:]
+            else:
+                continue
+            bad.add(e['id'])
+    got = _reject_ids('Trace_Pipe', [json.dumps(e) for e in evs])
+    return 'Trace_Pipe', len(evs), bad, got
+
+
 def main():
     ok = True
-    for fn in (select_trace, ir_trace, history_trace):
+    for fn in (select_trace, ir_trace, history_trace, parse_trace, pipe_trace):
         name, n, bad, got = fn()
         good = bad == got
         ok = ok and good
